@@ -316,6 +316,19 @@ def laws(rep, rnd, tier, vals, ivals, impl):
         if out != ("val", want):
             rep.violation("input", "%s gives %s, interchangeable equal representatives give %s" % (prog, out, want), check="history", program=prog, want=want)
     rep.cov["representatives_with_history"] = hist
+    # dates that differ by less than the second their text shows (reached by arithmetic with fractions of a day): whatever == says
+    # about two of them, sets, maps, membership, removal and the order must say the same
+    dexprs = ["date('20200101')", "(date('20200101') + 0.000002)", "(date('20200101') + 0.000004)", "(date('20191231') + 1)", "(date('20200101') + 0.0000116)",
+              "(date('20200102') - 0.999998)", "date('20200101000001')", "(date('20200101') + 0.5)", "(date('20200101') + 0.500001)"]
+    for da in dexprs:
+        for db in dexprs:
+            prog = ("def a = %s; def b = %s; def m = <<<>>>; m[a] = 1; [a == b, b == a, not (a != b), a in <<b>>, b in <<a>>, length(<<a, b>>) == 1, b in m, "
+                    "length(<<a>> - <<b>>) == 0, <<a>> == <<b>>, [a] == [b], a in [b], not (a < b or b < a), compare(a, b) == 0]" % (da, db))
+            out = impl.run_src(I, prog)
+            n += 1
+            if out[0] != "val" or out[1] not in ("(list" + " (b 1)" * 13 + ")", "(list" + " (b 0)" * 13 + ")"):
+                rep.violation("input", "%s gives %s: equality, containers and order disagree about two dates" % (prog, out[:2]), check="date-fraction", program=prog,
+                              want="thirteen equal booleans")
     # NaN (recorded finding C06-F1: a NaN decimal is not equal to itself)
     out = impl.run_src(I, "def n = decimal('nan'); [n == n, n in [n], length(<<n, decimal('nan')>>)]")
     n += 1
